@@ -169,6 +169,7 @@ structure St where
   anyDelivered : Bool := false
   hung : Option String := none     -- a call into the real code did not return
   drained : Bool := false          -- Drain was called: WritePoints is closed for good
+  http : Bool := false             -- `cfg … http`: the harness sends every plain `write` through POST /write
 
 def addBr (st : St) (b : String) : St :=
   if st.branches.contains b then st else { st with branches := b :: st.branches }
@@ -302,7 +303,7 @@ def judge (_id : String) (lines : Array String) : Verdict := Id.run do
       let flags := rest.headD "-"
       let enc := parseEnc flags
       let prec' := if prec == "-" then "" else prec
-      let (status, mop) := serveWrite enc db' rp' prec' ls
+      let (status, mop) := serveWrite enc db' rp' prec' ls st.drained
       let want := if status == 204 then "ok" else s!"err:{status}"
       let p' := if prec' == "" then "n" else prec'
       let outOfRange := ls.any (fun x => match x with
@@ -312,6 +313,7 @@ def judge (_id : String) (lines : Array String) : Verdict := Id.run do
                       else if ls.any (fun x => match x with | .bad => true | _ => false) then "http-rejected-malformed-line"
                       else if outOfRange then "http-rejected-time-out-of-range"
                       else if db' == "" then "http-rejected-no-db"
+                      else if st.drained then "http-refused-after-drain-500"
                       else if rp' == "" then (if st.defaultRP == "" then "http-accepted-no-rp-no-default" else "http-accepted-no-rp-default-rp")
                       else "http-accepted")
       if status == 204 then
@@ -349,23 +351,40 @@ def judge (_id : String) (lines : Array String) : Verdict := Id.run do
         let merged := order.filterMap (fun i => all.find? (·.id == i))
         if writers.length ≥ 2 && merged.map (·.id) != all.map (·.id) then st := addBr st "concurrent-writers-interleaved"
         opOver := some (.write db' rp' merged)
-    | ["write", _, _, _] =>
-      if st.drained then
+    | ["write", db, rp, pts] =>
+      if st.http then
+        -- `cfg … http`: every plain write of the case is one POST /write (precision absent, one line per point, time stamp in ns)
+        let some db' := unesc db | return .badop l
+        let some rp' := unesc rp | return .badop l
+        let some pts := parsePoints pts | return .badop l
+        let (status, _) := serveWrite .plain db' rp' "" (pts.map (fun r => Line.point r r.pl.time)) st.drained
+        st := addBr st "write-through-http"
+        if status != 204 then
+          -- not accepted, nothing is written: after Drain the handler turns ErrTaskMasterClosed into a 500
+          st := addBr st (if st.drained then "http-write-after-drain-refused-500" else "http-write-refused")
+          if obs != [s!"err:{status}"] && st.hung.isNone then
+            st := { st with hung := some s!"write through HTTP: model err:{status} observed {" ".intercalate obs}" }
+          if obs != ["ok"] then continue
+      else if st.drained then
         -- WritePoints after Drain: ErrTaskMasterClosed, nothing is written
         st := addBr st "write-after-drain-refused"
         if obs != ["err:closed"] && st.hung.isNone then
           st := { st with hung := some s!"write after drain: model err:closed observed {" ".intercalate obs}" }
         if obs != ["ok"] then continue
+    | ["race", "hammer"] =>
+      -- race child: how many of the background writer's points were routed to tasks of the case (recorded by their sinks)
+      if obs != ["0"] then st := addBr st "race-hammer-points-routed-to-tasks-being-stopped"
+      continue
     | ["race", "check", _] =>
       if obs != ["0"] then return .specfail "no-data-race" s!"the Go race detector reported {" ".intercalate obs} data race(s) in the routing path"
       st := addBr st "race-detector-clean"
       continue
     | _ => pure ()
     match opT with
-    | "cfg" :: rp :: _ =>
+    | "cfg" :: rp :: mode =>
       let some rp := unesc rp | return .badop l
       if !st.hist.isEmpty then return .badop s!"cfg after operations: {l}"
-      st := { st with defaultRP := rp, started := true, model := init rp }
+      st := { st with defaultRP := rp, started := true, model := init rp, http := mode.headD "api" == "http" }
     | ["final", T, i] =>
       let some T := unesc T | return .badop l
       let some i := i.toNat? | return .badop l
